@@ -2,6 +2,7 @@ package cdrv
 
 import (
 	"context"
+	"encoding/json"
 	"fmt"
 	"math/big"
 	"os"
@@ -378,6 +379,38 @@ func TestSettle(t *testing.T) {
 	}()
 	shard, shards := drv.EnvInt("VERIF_SHARD", 0), drv.EnvInt("VERIF_SHARDS", 1)
 	n := 0
+	if rp := os.Getenv("VERIF_REPLAY_STEPS"); rp != "" && dot != "" { // replay of one recorded behaviour: follow its labels through the graph
+		var rec settleReplay
+		b, err := os.ReadFile(rp)
+		if err == nil {
+			err = json.Unmarshal(b, &rec)
+		}
+		if err != nil {
+			t.Fatal(err)
+		}
+		g, err := tla.LoadDot(dot)
+		if err != nil {
+			t.Fatal(err)
+		}
+		cur := g.Inits[0]
+		var steps []wStepS
+		for _, lb := range rec.Steps {
+			var next *tla.Edge
+			for _, e := range cur.Out {
+				if e.Act.Label == lb {
+					next = e
+				}
+			}
+			if next == nil {
+				t.Fatalf("the graph has no edge %s here", lb)
+			}
+			steps = append(steps, wStepS{next.Act, next.Src.State, next.Dst.State})
+			cur = next.Dst
+		}
+		res.Add("behaviours", 1)
+		runSettleBehaviour(t, res, cfg, steps, 1)
+		return
+	}
 	if dot != "" {
 		g, err := tla.LoadDot(dot)
 		if err != nil {
